@@ -22,7 +22,7 @@ from fiddle import arg_factory
 from fiddle.experimental import auto_config
 from harness import targets
 from harness.c11lib import base
-from harness.c11lib.base import Enc, Dec, relu, scale, plain_helper, inner_inline, inner_opaque, fresh_enc, dims, QuotaError
+from harness.c11lib.base import Enc, Dec, relu, scale, plain_helper, inner_inline, inner_opaque, fresh_enc, dims, gather, front, QuotaError
 import logging
 _LOG = logging.getLogger('c11_generated')
 
@@ -32,15 +32,20 @@ _LOG = logging.getLogger('c11_generated')
 class ProgGen:
   """Generates the source of a function in auto_config's supported subset."""
 
-  def __init__(self, r, control_flow):
+  def __init__(self, r, control_flow, closure=False):
     self.r = r
     self.cf = control_flow
+    self.closure = closure
     self.vars = []          # local variable names holding objects
     self.lines = []
     self.n = 0
 
   def atom(self):
     r = self.r
+    if self.closure and r.random() < 0.45:
+      # captured (lower-case) variables of the enclosing function, attribute reads in argument
+      # position, a captured callable passed on as a value
+      return r.choice(['scale', 'settings.width', 'settings.width + a', 'base.Kind.FAST', 'hook', 'settings.depth'])
     return r.choice(['a', 'b', '1', '2', "'s'", 'None', '2.5', 'a + 1'])
 
   def expr(self, depth):
@@ -102,7 +107,17 @@ class ProgGen:
     if x < 0.94:
       return r.choice([f'Dec.make({e()})', f'Dec.helper({e()})', f'base.Dec.make(enc={e()})'])
     y = r.random()
-    if y < 0.2:
+    if y < 0.18:
+      # chains of partials of BOTH flavours (plain values / argument factories) where one link binds
+      # positionally (*args, a positional-only parameter) and another binds keywords
+      return r.choice(['arg_factory.partial(functools.partial(gather, 1, 2), sink=list)',
+                       'functools.partial(arg_factory.partial(front, list), v=3)',
+                       f'functools.partial(functools.partial(gather, {e()}, 2), sink={e()})',
+                       'arg_factory.partial(arg_factory.partial(gather, list), sink=dict, note=list)',
+                       f'functools.partial(arg_factory.partial(gather, list, fresh_enc), note={e()})',
+                       f'arg_factory.partial(functools.partial(front, {e()}, w=1), v=list)',
+                       'functools.partial(arg_factory.partial(functools.partial(gather, 1), note=list), sink=7)'])
+    if y < 0.3:
       # an argument factory whose bound arguments are all positional (*args of the factory)
       return r.choice(['arg_factory.partial(Dec, enc=functools.partial(dims, 3, 4))',
                        f'arg_factory.partial(Dec, opts=functools.partial(dims, {e()}))',
@@ -148,6 +163,12 @@ class ProgGen:
     if self.cf:
       deco += '(experimental_allow_control_flow=True)'
     body = '\n'.join('  ' + l for l in self.lines)
+    if self.closure:
+      ind = lambda t: '\n'.join('  ' + l for l in t.splitlines())
+      return (HEADER + 'import types\n\n\ndef _make(scale, settings, hook):\n'
+              + ind(f'def prog_plain(a, b=3):\n{body}') + '\n'
+              + ind(f'{deco}\ndef prog(a, b=3):\n{body}') + '\n  return prog_plain, prog\n\n\n'
+              + 'prog_plain, prog = _make(2.5, types.SimpleNamespace(width=4, depth=(1, 2)), relu)\n')
     plain = f'def prog_plain(a, b=3):\n{body}\n'
     deco_src = f'{deco}\ndef prog(a, b=3):\n{body}\n'
     return HEADER + plain + '\n' + deco_src
@@ -156,6 +177,9 @@ class ProgGen:
 def cases(tier, r):
   for _ in range(320 if tier == 'quick' else 6000):
     yield 'program', {'seed': r.getrandbits(48), 'control_flow': r.random() < 0.4, 'arg': r.choice([0, 1, 2, 5])}
+  for _ in range(60 if tier == 'quick' else 1000):
+    yield 'closure', {'seed': r.getrandbits(48), 'control_flow': r.random() < 0.3, 'arg': r.choice([0, 1, 2, 5]),
+                      'closure': True}
   for i in range(8 if tier == 'quick' else 40):
     yield 'method', {'method': True, 'seed': i, 'arg': i % 3}
   for i in range(6 if tier == 'quick' else 40):
@@ -297,7 +321,7 @@ def execute(case):
     obs['src'] = 'Stack.layer'
     return obs, None
   r = random.Random(case['seed'])
-  src = ProgGen(r, case['control_flow']).program()
+  src = ProgGen(r, case['control_flow'], closure=case.get('closure', False)).program()
   obs['src'] = src
   try:
     mod, d, name = load(src)
